@@ -48,5 +48,79 @@ def join_reader(prog, f):
 
     elt = ast.unparse(R().visit(copy.deepcopy(g.elt)))
     src = source_of(fx, g.generators[0].iter, prog, f)
-    return {"sep": sep, "elt": elt, "terminal": src["terminal"], "filtered": src["filtered"] + [ast.unparse(c) for c in g.generators[0].ifs],
+    return {"sep": sep, "elt": elt, "terminal": src["terminal"], "via": src["via"], "filtered": src["filtered"] + [ast.unparse(c) for c in g.generators[0].ifs],
             "lossy": src["lossy"]}
+
+
+def max_plus_one(prog, f):
+    """`max(<elt> for v in <source>) + 1` with 0 for an empty population (early `return 0` or `default=-1`), in any spelling:
+    returns {"elt", "terminal", "filtered", "empty"} or None."""
+    import copy
+
+    from .poly import Poly, of_expr
+
+    fx = expand(prog, f, local_only=True)
+    val = P_.value_aliases(fx)
+    found, empty = None, None
+    for r in P_.outcomes(fx.body, P_.aliases(fx)):
+        if r.end != "return":
+            continue
+        v = ast.parse(P_.full(r.path.end_node.value, val, depth=8), mode="eval").body
+        mx = [c for c in ast.walk(v) if isinstance(c, ast.Call) and dotted(c.func) == "max" and c.args]
+        if not mx:
+            k = prog.const(v, f.module)
+            if isinstance(k, int) and not isinstance(k, bool):
+                empty = k   # the value returned when nothing is in use
+                continue
+            return None
+        if len(mx) != 1:
+            return None
+        c = mx[0]
+
+        class R(ast.NodeTransformer):
+            def visit_Call(self, n):
+                return ast.Name(id="MAX", ctx=ast.Load()) if n is c else self.generic_visit(n)
+        g = c.args[0]
+        if of_expr(R().visit(v)) != Poly.sym("MAX") + Poly.const(1):   # v is a fresh tree: rewritten in place
+            return None
+        if isinstance(g, ast.Call) and dotted(g.func) in ("list", "tuple") and g.args:
+            g = g.args[0]
+        if not (isinstance(g, (ast.ListComp, ast.GeneratorExp)) and len(g.generators) == 1 and isinstance(g.generators[0].target, ast.Name)):
+            return None
+        tv = g.generators[0].target.id
+
+        class T(ast.NodeTransformer):
+            def visit_Name(self, n):
+                return ast.Name(id="_", ctx=n.ctx) if n.id == tv else n
+        src = source_of(fx, g.generators[0].iter, prog, f)
+        found = {"elt": ast.unparse(T().visit(copy.deepcopy(g.elt))), "terminal": src["terminal"], "via": src["via"],
+                 "filtered": src["filtered"] + [ast.unparse(x) for x in g.generators[0].ifs]}
+        dflt = next((k.value for k in c.keywords if k.arg == "default"), None)
+        if dflt is not None:
+            d = prog.const(dflt, f.module)
+            if isinstance(d, int):
+                empty = d + 1
+    if found is None:
+        return None
+    found["empty"] = empty
+    return found
+
+
+def position_lookup(prog, f):
+    """`for i, s in enumerate(self): if x is s: return i` (x the parameter): returns {"source", "start", "test"} or None."""
+    fx = expand(prog, f, local_only=True)
+    params = [a.arg for a in f.node.args.args if a.arg not in ("self", "cls")]
+    for lp in [n for n in ast.walk(fx) if isinstance(n, ast.For)]:
+        it = lp.iter
+        if not (isinstance(it, ast.Call) and dotted(it.func) == "enumerate" and it.args and isinstance(lp.target, ast.Tuple) and len(lp.target.elts) == 2
+                and all(isinstance(e, ast.Name) for e in lp.target.elts)):
+            continue
+        iv, ev = lp.target.elts[0].id, lp.target.elts[1].id
+        start = it.args[1] if len(it.args) > 1 else next((k.value for k in it.keywords if k.arg == "start"), None)
+        sv = prog.const(start, f.module) if start is not None else 0
+        for r in P_.outcomes(lp.body, P_.aliases(fx)):
+            if r.end == "return" and r.value == iv:
+                for a in r.facts:
+                    if a[0] == "cmp" and a[1] in ("Is", "Eq") and a[4] is True and {a[2], a[3]} == {ev, params[0] if params else None}:
+                        return {"source": ast.unparse(it.args[0]), "start": sv, "test": a[1]}
+    return None
